@@ -1,6 +1,7 @@
 import Rspirv.Model.Assemble
 import Rspirv.Model.Module
 import Rspirv.Generated.Traversals
+import Rspirv.Props.C15
 /-!
 # C15 — `Instruction::assemble_into` appends the instruction's own assembly, wherever it is placed
 
@@ -213,6 +214,16 @@ theorem C15_module_into (buf : List Nat) (m : Module Inst) :
     moduleInto asmModule asmHeader globalIter asmFunction asmBlock (instInto asmInstruction) buf m =
       buf ++ Module.asm asmModule asmHeader globalIter asmFunction asmBlock assembleInst m :=
   moduleInto_eq _ _ C15_inst_into _ _ _ _ _ buf m
+
+open Rspirv.Generated.Traversals in
+/-- **C15, from the Rust text to the statement of the property.** What `Module::assemble_into` does — the translated bodies of the module,
+function, block, header and instruction impls threading one output vector — is: leave the vector's earlier content alone and append the
+header words followed by the assembly of each instruction visited by `all_inst_iter`, in that order. -/
+theorem C15_full (buf : List Nat) (m : Module Inst) :
+    moduleInto asmModule asmHeader globalIter asmFunction asmBlock (instInto asmInstruction) buf m =
+      buf ++ ((m.header.map (Header.asm asmHeader)).getD [] ++ (Rspirv.Props.C15.allInstIter m).flatMap assembleInst) := by
+  rw [C15_module_into]
+  exact congrArg _ (Rspirv.Props.C15.C15_assemble assembleInst m)
 
 example : instInto Rspirv.Generated.Traversals.asmInstruction [9, 9] ⟨1, some 5, some 6, [.w 0 7]⟩ = [9, 9, 262145, 5, 6, 7] := by
   decide
